@@ -399,14 +399,22 @@ class SymPairSeq:
 
     def __getitem__(self, i):
         if isinstance(i, slice):
-            raise Undecided("slice of a symbolic pair sequence")
+            if i.step is not None or i.stop is not None or not isinstance(i.start, int) or i.start < 0:
+                raise Undecided("only seq[c:] slices of a symbolic pair sequence are modelled")
+            off = i.start
+            v = SymPairSeq.__new__(SymPairSeq)
+            k = z3.Int("sl!k")
+            v.lo = z3.Lambda([k], z3.Select(self.lo, k + off))
+            v.hi = z3.Lambda([k], z3.Select(self.hi, k + off))
+            v.n = z3.If(self.n >= off, self.n - off, z3.IntVal(0))
+            return v
         ei = as_z3_int(i)
         c = ctx()
         if c.decide(ei < 0):
             ei = ei + self.n
         if not c.decide(z3.And(ei >= 0, ei < self.n)):
             raise IndexError("tuple index out of range")
-        return (mk(z3.Select(self.lo, ei)), mk(z3.Select(self.hi, ei)))
+        return (mk(z3.simplify(z3.Select(self.lo, ei))), mk(z3.simplify(z3.Select(self.hi, ei))))
 
     def __iter__(self):
         return SymPairIter(self)
@@ -439,7 +447,7 @@ class SymPairIter:
         p = as_z3_int(self.pos)
         if not c.decide(p < self.seq.n):
             raise StopIteration
-        item = (mk(z3.Select(self.seq.lo, p)), mk(z3.Select(self.seq.hi, p)))
+        item = (mk(z3.simplify(z3.Select(self.seq.lo, p))), mk(z3.simplify(z3.Select(self.seq.hi, p))))
         self.pos = mk(z3.simplify(p + 1))
         return item
 
@@ -499,6 +507,12 @@ class SymPairList:
         self.n = z3.Int(c.fresh_name(name + ".n"))
         c.assume(self.n >= 0)
 
+    @staticmethod
+    def empty(name):
+        r = SymPairList(name)
+        r.n = z3.IntVal(0)
+        return r
+
     def append(self, pair):
         lo, hi = pair
         self.lo = z3.Store(self.lo, self.n, as_z3_int(lo))
@@ -527,10 +541,11 @@ def pairs_of(x):
 _VK = [0]
 
 
-def in_view(x, pairs, start=0):
-    """z3 Bool: x lies in one of pairs[start:]"""
+def in_view(x, pairs, start=0, end=None):
+    """z3 Bool: x lies in one of pairs[start:end]"""
     lo, hi, n = pairs_of(pairs)
     _VK[0] += 1
     k = z3.Int("vk!%d" % _VK[0])
     xe = as_z3_int(x)
-    return z3.Exists([k], z3.And(k >= as_z3_int(start), k < n, z3.Select(lo, k) <= xe, xe <= z3.Select(hi, k)))
+    stop = n if end is None else as_z3_int(end)
+    return z3.Exists([k], z3.And(k >= as_z3_int(start), k < stop, k < n, z3.Select(lo, k) <= xe, xe <= z3.Select(hi, k)))
